@@ -2016,7 +2016,11 @@ def _concurrent_case(run, verde, make_hull, index, rng):
 
     def same(a, b):
         va, vb = np.asarray(a.values), np.asarray(b.values)
-        return (a.name == b.name and a.dims == b.dims and va.shape == vb.shape and bool(np.all((va == vb) | (np.isnan(va) & np.isnan(vb))))
+        # values compared up to the last bits (1e-9 of the grid's magnitude): numpy / BLAS are not bit-reproducible across differently
+        # aligned buffers and threads change what the allocator returns; another call's values differ by the offset between the grids
+        scale = float(np.nanmax(np.abs(vb))) if np.isfinite(vb).any() else 1.0
+        return (a.name == b.name and a.dims == b.dims and va.shape == vb.shape
+                and bool(np.all(np.isclose(va, vb, rtol=1e-9, atol=1e-9 * max(scale, 1e-300)) | (np.isnan(va) & np.isnan(vb))))
                 and all(np.array_equal(np.asarray(a.coords[d].values), np.asarray(b.coords[d].values)) for d in a.dims))
 
     def report(kind, label, outcomes, alone):
